@@ -14,8 +14,10 @@ Python value specs: {"t":"int","v":"-12"} {"t":"bool","v":1} {"t":"dec","s":0,"c
 
 Observations (compared with the compiled Lean model, see lean/RV/C09/Drive.lean): datatype chosen, *validity* of the
 lexical forms produced (spelling is a diagnostic: VERIF_C09_SPELL=1 compares it too), ill_typed, value (structurally),
-value after re-reading, normalize() once and twice, eq / term equality.  Floats, bytes values and
-inputs outside the declared fragment of the CPython constructors answer `unmodelled` on both sides.
+value after re-reading, normalize() once and twice, eq / term equality.  Bytes values and
+inputs outside the declared fragment of the CPython constructors answer `unmodelled` on both sides; xsd:double / xsd:float
+lex cases and Literal(float) are compared through the `flex` / `fpy` driver commands (values as sign, mantissa, binary
+exponent), float literals in the eq / eqpy / relit streams are `unmodelled`.
 
 Property oracle (`viol`, independent of Lean): XSD 1.1 lexical spaces as regular expressions written from the
 W3C productions + Python's own int / Fraction arithmetic for the values.
@@ -119,7 +121,11 @@ RULE = ("one literal (or one pair) per case: grammar-generated valid lexical for
 ASSUMPTIONS = ["CPython's int(), Decimal(), format(Decimal,'f'), date/time/datetime.fromisoformat and isoformat behave "
                "as their documented grammar on the declared fragment (printable ASCII + ASCII white space; no ISO week "
                "dates; time/dateTime of the XSD shape) — exercised by this run",
-               "float/double: IEEE rounding and repr are outside the Lean model (consistency checked here only)",
+               "float(str) is the correctly rounded (round-half-even, binary64) conversion of the decimal numeral and repr(float) the "
+               "shortest digit string that reads back, closest first (the Lean model computes both with exact integers) — every "
+               "xsd:double / xsd:float lex case and every Literal(float) case of this run is compared bit for bit",
+               "base64.b64decode is binascii.a2b_base64 in non-strict mode (characters outside the alphabet skipped, pad counting "
+               "as in CPython 3.12) — exercised by this run",
                "non-finite Decimals, ints beyond CPython's 4300-digit str() limit and Durations with fractional or "
                "mixed-sign parts have no XSD counterpart and are outside the quantifier"]
 TRUSTED = ["harness/c09.py generators, XSD regular expressions and canonicalisation", "harness/c09_tables.py table extraction",
